@@ -21,9 +21,9 @@ func init() { components["disp"] = runDisp }
 // threadSafeRBC -> rbc.Receiver -> forward closure -> backend.OnMsg, with acknowledgements leaving
 // through Send.
 type dispSession struct {
-	rg     *schemeRig
-	cancel context.CancelFunc
-	done   chan error
+	rg      *schemeRig
+	cancel  context.CancelFunc
+	done    chan error
 	topic   []byte
 	self    uint16
 	ids     []uint16 // the nodes acknowledgements are broadcast to
